@@ -29,6 +29,7 @@ switched on is reported under the key below.
 import copy
 import json
 import os
+import re
 import shutil
 
 from .. import core
@@ -36,12 +37,18 @@ from ..core import Inconclusive
 
 SPEC = os.path.join(core.VERIF, "spec", "Forwarding")
 LEVEL = "model_checking"
-HARNESS = ["htlcswitch/c08_test.go"]
+HARNESS = ["htlcswitch/c08_test.go", "htlcswitch/c08_switch_test.go", "htlcswitch/c08_mailbox_test.go"]
+LOST_KEY = "C08:response-not-replayed-after-link-flap"
+SWACK_KEY = "C08:switch-ack"
+MBOX_KEY = "C08:mailbox"
 O3_KEY = "C08:owed-commit-sig-not-resumed"
 F21_KEY = "C08:fwdpkg-replay-index"
 O4_KEY = "C08:add-stranded-by-reconnect"
 # directed schedules executed with every batch (file name in the schedule dir -> source, key of the finding it guards)
-DIRECTED = {"b_0.ndjson": ("O3_plan.ndjson", O3_KEY), "b_00.ndjson": ("F21_plan.ndjson", F21_KEY)}
+DIRECTED = {"b_0.ndjson": ("O3_plan.ndjson", O3_KEY), "b_00.ndjson": ("F21_plan.ndjson", F21_KEY),
+            # the hand-over of a locked-in settle / fail to the switch is lost at a link stop, the channel reconnects
+            "b_000.ndjson": ("lost_fwd_ok.ndjson", LOST_KEY), "b_0000.ndjson": ("lost_fwd_unknown.ndjson", LOST_KEY),
+            "b_00000.ndjson": ("lost_rev_ok.ndjson", LOST_KEY), "b_000000.ndjson": ("lost_rev_unknown.ndjson", LOST_KEY)}
 ALLK = '{"ok", "reject", "hold", "underpaid"}'
 BOTH = '{"fwd", "rev"}'
 
@@ -94,12 +101,122 @@ def model_check(ck, thorough):
     for what, np_, kinds, dirs, mn, ml, quirk in (MC_THOROUGH if thorough else MC_QUICK):
         r = ck.model_check(SPEC, "ForwardingMC", "ForwardingMC.cfg", what,
                            constants={"NP": np_, "Kinds": kinds, "Dirs": dirs, "MaxNet": mn, "MaxLink": ml,
-                                      "OwedSigQuirk": quirk, "StrandQuirk": quirk},
+                                      "OwedSigQuirk": quirk, "StrandQuirk": quirk, "ReplayOnLinkStart": "TRUE"},
                            workers=4, timeout=2400, coverage=(thorough and np_ == 1 and mn == 2 and quirk == "FALSE"),
                            name="mc_np%d_%d%d_%s" % (np_, mn, ml, quirk[0]))
         if r.coverage_zero:
             ck.cov.setdefault("vacuous_actions", []).extend(r.coverage_zero)
+    # the two small sequential specs, exhaustively
+    ck.model_check(SPEC, "SwitchAckMC", "SwitchAckMC.cfg", "SwitchAck: one circuit, settle and fail, every step order",
+                   constants={"AckWhileClosing": "FALSE"}, workers=2, timeout=300, name="mc_switchack")
+    ck.model_check(SPEC, "MailboxMC", "MailboxMC.cfg", "Mailbox: %d packets, every order of add/pick/deliver/ack/reset" % (5 if thorough else 4),
+                   constants={"Ids": "{1, 2, 3, 4, 5}" if thorough else "{1, 2, 3, 4}", "ResetKeepsOffered": "FALSE"},
+                   workers=4, timeout=900, name="mc_mailbox")
+    # witnesses: each named defect switch must break the rule it is about (the rules are not vacuous)
+    for mod, cfg, consts, want, what in (
+            ("ForwardingMC", "ForwardingMC.cfg",
+             {"NP": 1, "Kinds": ALLK, "Dirs": '{"fwd"}', "MaxNet": 0, "MaxLink": 1, "OwedSigQuirk": "FALSE",
+              "StrandQuirk": "FALSE", "ReplayOnLinkStart": "FALSE"}, "QuiescenceRules",
+             "witness: without the replay of unacked settles/fails at link start the quiescence rules fail"),
+            ("SwitchAckMC", "SwitchAckMC.cfg", {"AckWhileClosing": "TRUE"}, "AckOnlyAfterTeardown",
+             "witness: acking while the circuit is closing breaks AckOnlyAfterTeardown"),
+            ("MailboxMC", "MailboxMC.cfg", {"Ids": "{1, 2, 3}", "ResetKeepsOffered": "TRUE"}, "NothingSkipped",
+             "witness: a reset that keeps the offered reply's head skips the consumed one")):
+        r = ck.model_check(SPEC, mod, cfg, what, must_hold=False, constants=consts, workers=2, timeout=300,
+                           name="wit_" + mod)
+        if r.violation != "invariant " + want:
+            raise Inconclusive("%s: expected a violation of %s, got %s" % (what, want, r.violation))
     ck.cov["exhaustive"] = True
+
+
+def is_new(r):
+    return r.get("a") in ("Reset", "New")
+
+
+def small_parts(ck, res, thorough):
+    """The switch-level and the mailbox traces of the same go test run."""
+    # ---- switch level: deterministic, conformance as invariants
+    p = os.path.join(res["dir"], "trace_switch.ndjson")
+    if not os.path.exists(p) or os.path.getsize(p) == 0:
+        raise Inconclusive("switch-level executor produced no trace:\n" + res["out"][-2000:])
+    recs = core.read_ndjson(p)
+    v = ck.validate(SPEC, "SwitchAckTrace", "SwitchAckTrace.cfg", p, constants={"AckWhileClosing": "FALSE"}, name="val_switch")
+    ntr = sum(1 for r in recs if r["a"] == "Reset")
+    ck.cov["evaluations"] += len(recs)
+    ck.cov["switch_level"] = dict(traces=ntr, steps=len(recs) - ntr)
+    if not v["ok"]:
+        line = v["line"] or 1
+        a, b = core.slice_trace(recs, line, is_new)
+        one = os.path.join(ck.out, "failing_switch.ndjson")
+        core.write_ndjson(one, recs[a:b])
+        bad = recs[min(line - 1, len(recs) - 1)]
+        inv = (v["invariant"] or "").replace("invariant ", "")
+        ck.violation("%s:%s:%s" % (SWACK_KEY, inv, bad.get("a")),
+                     "real Switch deviates from spec/Forwarding/SwitchAck (%s) at step %d of schedule %s: %s - a settle/fail "
+                     "must be acked in the outgoing channel's forwarding package only after the incoming link has torn the "
+                     "circuit down" % (v["invariant"], line - a, recs[a].get("plan"), json.dumps(bad)),
+                     files={"trace.ndjson": one}, text="\n".join(json.dumps(r) for r in recs[a:b]) + "\n" + (v["cex"] or ""))
+    else:
+        ck.cov["traces_validated_against_impl"] += ntr
+        bad = copy.deepcopy(recs)
+        i = next(k for k, r in enumerate(bad) if r["a"] == "Tick")
+        bad[i]["acked"] = 1 - bad[i]["acked"]
+        q = os.path.join(ck.out, "control_switch.ndjson")
+        core.write_ndjson(q, bad)
+        vv = ck.validate(SPEC, "SwitchAckTrace", "SwitchAckTrace.cfg", q, constants={"AckWhileClosing": "FALSE"}, name="control_switch")
+        if vv["ok"]:
+            raise Inconclusive("negative control accepted (switch level)")
+        ck.cov.setdefault("negative_controls", []).append(dict(mutation="switch level: recorded SettleFailFilter bit flipped at a Tick",
+                                                               rejected_by=vv["invariant"], at_line=vv["line"]))
+    # ---- mailbox: silent courier steps, accepted iff TLC reaches the end of the file (violates NotDone)
+    p = os.path.join(res["dir"], "trace_mailbox.ndjson")
+    if not os.path.exists(p) or os.path.getsize(p) == 0:
+        raise Inconclusive("mailbox executor produced no trace:\n" + res["out"][-2000:])
+    recs = core.read_ndjson(p)
+
+    def val_mailbox(path, name):
+        v = ck.validate(SPEC, "MailboxTrace", "MailboxTrace.cfg", path, constants={"ResetKeepsOffered": "FALSE"}, name=name)
+        hw = [int(x) for x in re.findall(r'<<"highwater", (\d+)>>', v["res"].out)]
+        if v["invariant"] == "invariant NotDone":
+            v.update(ok=True, invariant=None, line=None)
+            ck.cov["validations"][-1]["result"] = "accepted (end of file reachable)"
+        elif v["ok"]:
+            v.update(ok=False, invariant="no placement of the courier's silent steps explains the recorded answers",
+                     line=max(hw) if hw else 1)
+            ck.cov["validations"][-1]["result"] = "rejected at line %s" % v["line"]
+        return v
+    v = val_mailbox(p, "val_mailbox")
+    ntr = sum(1 for r in recs if r["a"] == "New")
+    ck.cov["evaluations"] += len(recs)
+    ck.cov["mailbox"] = dict(traces=ntr, steps=len(recs) - ntr,
+                             resets=sum(1 for r in recs if r["a"] == "Reset"),
+                             deliveries=sum(1 for r in recs if r["a"] == "Recv" and r["id"] != 0))
+    if not v["ok"]:
+        line = v["line"] or 1
+        a, b = core.slice_trace(recs, line, is_new)
+        one = os.path.join(ck.out, "failing_mailbox.ndjson")
+        core.write_ndjson(one, recs[a:b])
+        bad = recs[min(line - 1, len(recs) - 1)]
+        ck.violation("%s:%s" % (MBOX_KEY, "redelivery-after-reset" if any(r["a"] == "Reset" for r in recs[a:line]) else bad.get("a")),
+                     "real memoryMailBox deviates from spec/Forwarding/Mailbox: %s at step %d of schedule %s: %s" % (
+                         v["invariant"], line - a, recs[a].get("plan"), json.dumps(bad)),
+                     files={"trace.ndjson": one}, text="\n".join(json.dumps(r) for r in recs[a:b]))
+    else:
+        ck.cov["traces_validated_against_impl"] += ntr
+        # negative control: the first trace with two consecutive deliveries, swapped
+        bad = copy.deepcopy(recs)
+        k = next((i for i in range(len(bad) - 1) if bad[i]["a"] == "Recv" and bad[i + 1]["a"] == "Recv"
+                  and bad[i]["id"] != 0 and bad[i + 1]["id"] != 0), None)
+        if k is None:
+            raise Inconclusive("no mailbox trace suitable for the negative control")
+        bad[k]["id"], bad[k + 1]["id"] = bad[k + 1]["id"], bad[k]["id"]
+        q = os.path.join(ck.out, "control_mailbox.ndjson")
+        core.write_ndjson(q, bad)
+        vv = val_mailbox(q, "control_mailbox")
+        if vv["ok"]:
+            raise Inconclusive("negative control accepted (mailbox)")
+        ck.cov.setdefault("negative_controls", []).append(dict(mutation="mailbox: two consecutive deliveries swapped",
+                                                               rejected_by=vv["invariant"], at_line=vv["line"]))
 
 
 def report(ck, recs, v, quirk, tag):
@@ -210,10 +327,19 @@ def run(ck):
     # the deterministic reproductions of F17 (O3) and F21 run with every batch
     for name, (src, _) in DIRECTED.items():
         shutil.copy(os.path.join(SPEC, "repro", src), os.path.join(sched, name))
+    # schedules of the switch-level part and of the mailbox part (every tier)
+    fsw = ck.generate(SPEC, "SwitchAckGen", "SwitchAckGen.cfg", 90 if thorough else 24, 9, name="gen_switch", timeout=300)
+    swdir = os.path.dirname(fsw[0])
+    shutil.copy(os.path.join(SPEC, "repro", "swack_settle.ndjson"), os.path.join(swdir, "b_0.ndjson"))
+    shutil.copy(os.path.join(SPEC, "repro", "swack_fail.ndjson"), os.path.join(swdir, "b_00.ndjson"))
+    fmb = ck.generate(SPEC, "MailboxGen", "MailboxGen.cfg", 600 if thorough else 150, 40, name="gen_mailbox", timeout=300)
+    mbdir = os.path.dirname(fmb[0])
+    shutil.copy(os.path.join(SPEC, "repro", "mailbox_reset_while_offering_reply.ndjson"), os.path.join(mbdir, "b_0.ndjson"))
+    shutil.copy(os.path.join(SPEC, "repro", "mailbox_reset_while_offering_add.ndjson"), os.path.join(mbdir, "b_00.ndjson"))
     # (c) execute on the real network: thorough under the race detector
     free = 160 if thorough else 14
-    res = ck.go_test("./htlcswitch/", "^TestVerifC08Forwarding$", HARNESS,
-                     env={"VERIF_SCHED": sched, "VERIF_FREE": free, "VERIF_PAR": 3},
+    res = ck.go_test("./htlcswitch/", "^TestVerifC08(Forwarding|SwitchAck|Mailbox)$", HARNESS,
+                     env={"VERIF_SCHED": sched, "VERIF_FREE": free, "VERIF_PAR": 3, "VERIF_SWACK": swdir, "VERIF_MBOX": mbdir},
                      race=thorough, timeout=3000 if thorough else 1500, name="exec")
     trace = os.path.join(res["dir"], "trace.ndjson")
     if not os.path.exists(trace) or os.path.getsize(trace) == 0:
@@ -261,6 +387,12 @@ def run(ck):
                          "two reconnects the exit hop's link dies on a replayed, already settled add and the next payment is "
                          "never answered (F21); %s at line %d" % (v["invariant"], line - a),
                          files={"trace.ndjson": one, "F21_plan.ndjson": os.path.join(SPEC, "repro", "F21_plan.ndjson")}, text=ctx)
+        elif plan in DIRECTED and DIRECTED[plan][1] == LOST_KEY and dangling:
+            ck.violation(LOST_KEY,
+                         "a settle/fail that the outgoing link had recorded in its forwarding package was lost on its way to "
+                         "the switch when the link stopped, and is not replayed when the link starts again: the incoming HTLC "
+                         "and its circuit dangle (%s at line %d), plan %s" % (v["invariant"], line - a, DIRECTED[plan][0]),
+                         files={"trace.ndjson": one}, text=ctx)
         elif (plan == "b_0.ndjson" and dangling) or validate(ck, one, True, "val_%d_o3" % attempt)["ok"]:
             # the directed F17 schedule, or a trace that the named deviation O3 alone explains
             ck.violation(O3_KEY, o3_text,
@@ -286,6 +418,8 @@ def run(ck):
         raise Inconclusive("the directed F17 schedule was not executed")
     ck.cov["f17_regression"] = dict(result=o3[0][-1].get("res"), invoice=o3[0][-1].get("inv"),
                                     cut_hit=any(r.get("a") == "Restart" for r in o3[0]))
+    # the switch-level and the mailbox part
+    small_parts(ck, res, thorough)
     # (e) negative controls
     negative_controls(ck, split_traces(accepted))
     # evidence
